@@ -519,5 +519,6 @@ GetExprUses.native_witness = {'C18.every-name-the-expression-reads-is-recorded':
                               'names-read-by-the-arguments-so-far-are-recorded': LINT_SCOPE_WITNESS}
 GetAssignsUses.native_witness = {'C18.every-name-a-statement-reads-is-recorded': LINT_SCOPE_WITNESS,
                                  'names-read-by-the-statements-so-far-are-recorded': LINT_SCOPE_WITNESS}
+IsPointless.native_witness = {'C18.pointless-means-no-function-call-anywhere-inside': LINT_SCOPE_WITNESS}
 LINT_SCRIPT_IMPL = LintScript()
 LINT_SCRIPT_IMPL.callee_contracts = {GET_ASSIGNS_USES.qual: GET_ASSIGNS_USES, IS_POINTLESS.qual: IS_POINTLESS}
